@@ -17,8 +17,8 @@ fn check_byte(tag: u64, i: usize) -> u8 {
 pub const fn tag_mod(size: usize) -> u64 {
     match size {
         0 => 1,
-        1 => 251,
-        2..=7 => 64000,
+        1 => 247,
+        2..=7 => 63000,
         _ => BIG_TAG_SPACE,
     }
 }
@@ -54,7 +54,7 @@ pub unsafe fn decode(p: *const u8, size: usize) -> u64 {
         0 => 0,
         1 => {
             let b = *p;
-            if (b as u64) < 251 {
+            if (b as u64) < 247 {
                 b as u64
             } else {
                 INVALID_TAG
@@ -62,7 +62,7 @@ pub unsafe fn decode(p: *const u8, size: usize) -> u64 {
         }
         2..=7 => {
             let tag = (*p as u64) | ((*p.add(1) as u64) << 8);
-            if tag >= 64000 {
+            if tag >= 63000 {
                 return INVALID_TAG;
             }
             for i in 2..size {
